@@ -39,6 +39,7 @@ type cowGen struct {
 	MaxSnaps  int
 	MaxHist   int
 	Variant   string
+	Kinds     []string // write kinds explored (default: Insert, Update, Remove)
 }
 
 func (g *cowGen) tla() string {
@@ -46,6 +47,15 @@ func (g *cowGen) tla() string {
 	b.WriteString("---- MODULE Gen_Cow ----\n")
 	b.WriteString("GenPool == " + tlaSeqOfChars(g.Pool) + "\n")
 	fmt.Fprintf(&b, "GenMaxRoutes == %d\nGenMaxSnaps == %d\nGenMaxHist == %d\nGenVariant == %s\n", g.MaxRoutes, g.MaxSnaps, g.MaxHist, tlaStr(g.Variant))
+	kinds := g.Kinds
+	if len(kinds) == 0 {
+		kinds = []string{"Insert", "Update", "Remove"}
+	}
+	var ks []string
+	for _, k := range kinds {
+		ks = append(ks, tlaStr(k))
+	}
+	b.WriteString("GenKinds == {" + strings.Join(ks, ", ") + "}\n")
 	b.WriteString("====\n")
 	return b.String()
 }
@@ -408,6 +418,28 @@ func runCowPool(r *Run, name string, g *cowGen, rng *rand.Rand) {
 					return
 				}
 			}
+			// the published state: exactly the routes of the model's published root (nothing of an open or aborted
+			// transaction), answering requests like a fresh router holding them
+			{
+				want := e.modelRoutes(e.Pub)
+				pubH := cowHandle{kind: "iter", it: rt.Iter()}
+				if got := pubH.routes(); !slices.Equal(got, want) {
+					d := detail()
+					d["prescribed"], d["obtained"] = want, got
+					r.violation("cow: the router lists routes that were never committed (or misses committed ones)", d)
+					return
+				}
+				fresh := freshFor(want)
+				for _, pr := range probes {
+					if a, b := freshReverse(rt, "txn", pr[0], pr[1]), freshReverse(fresh.rt, "txn", pr[0], pr[1]); a != b {
+						d := detail()
+						d["prescribed"], d["obtained"] = b, a
+						d["host"], d["path"] = pr[0], pr[1]
+						r.violation(fmt.Sprintf("cow: the router answers %s %s differently from a router holding the committed routes", pr[0], pr[1]), d)
+						return
+					}
+				}
+			}
 			// the transaction reads its own writes (nothing follows in this replay, so reading it changes nothing)
 			if c.txn != nil {
 				want := e.modelRoutes(e.TxRoot)
@@ -479,6 +511,8 @@ var cowPools = []struct {
 	{"path", []string{"/a", "/a/b", "/a/c", "/ab"}},
 	{"host", []string{"a.b/", "a.b/a", "a.c/", "/a"}},
 	{"wild", []string{"/{x}", "/{x}/b", "/a", "/a{x}"}},
+	// a route registered on an intermediate node that already has edges, and writes that split or extend those edges
+	{"mid", []string{"/a/b", "/a/c", "/a/", "/a/bc"}},
 	// a node whose key holds an infix catch-all, with two levels of edges below it (a write two levels down clones it)
 	{"infix", []string{"/a/*{w}/b/c", "/a/*{w}/b/d", "/a/*{w}/b/c/e", "/a/*{w}/b/d/e"}},
 }
@@ -496,9 +530,18 @@ func runCow(r *Run) {
 			if p.name == "infix" {
 				i = len(pool) - 1
 			}
-			pool = slices.Delete(pool, i, i+1)
+			if p.name != "mid" {
+				pool = slices.Delete(pool, i, i+1)
+			}
 		}
-		runCowPool(r, p.name, &cowGen{Pool: pool, MaxRoutes: 3, MaxSnaps: 1, MaxHist: 60, Variant: "none"}, rng)
+		g := &cowGen{Pool: pool, MaxRoutes: 3, MaxSnaps: 1, MaxHist: 60, Variant: "none"}
+		if p.name == "mid" { // the shape needs all four routes; the quick tier explores it with inserts only
+			g.MaxRoutes = 4
+			if r.quick() {
+				g.Kinds = []string{"Insert"}
+			}
+		}
+		runCowPool(r, p.name, g, rng)
 	}
 	if !r.quick() {
 		// two snapshots alive at once: about a million states of the mechanism, decided by TLC alone (no replay)
@@ -511,12 +554,15 @@ func runCow(r *Run) {
 }
 
 // cowNegativeRuns: every deliberately wrong variant of the mechanism must be refuted by TLC.
-var cowVariants = []string{"cacheUpdatedNode", "noSnapshotReset", "resetOnlyIfDirty", "cloneSharesSlice", "editMatchedInPlace", "appendToMatched"}
+var cowVariants = []string{"cacheInsertedNode", "cacheUpdatedNode", "noSnapshotReset", "resetOnlyIfDirty", "cloneSharesSlice", "editMatchedInPlace", "appendToMatched"}
 
 func cowNegativeRuns(r *Run) {
 	var missed []string
 	for _, v := range cowVariants {
 		g := &cowGen{Pool: cowPools[0].pool, MaxRoutes: 3, MaxSnaps: 1, MaxHist: 60, Variant: v}
+		if v == "cacheInsertedNode" { // needs a route registered on an intermediate node and a write below it
+			g.Pool, g.MaxRoutes, g.Kinds = []string{"/a/b", "/a/c", "/a/", "/a/bc"}, 4, []string{"Insert"}
+		}
 		res := r.runTLC(tlcOpts{Module: "MC_Cow", Tag: "-variant-" + v, Gen: map[string]string{"Gen_Cow.tla": g.tla()}, Timeout: 20 * time.Minute})
 		if res.InvViol != "" {
 			r.addCov("cow_wrong_variants_refuted", 1)
